@@ -51,6 +51,21 @@ def gen_cases(tier, seed):
         for cyc_ in (False, True):
             cases.append({"cyc": cyc_, "mode": "edge", "wt": "int", "kdelta": 0, "knone": False, "ignore": [], "scale": [], "starts": [], "ends": [], "superset": None,
                           "plr": None, "spec": I.spec_of(base)})
+    # family 'dip': a chain (plus a by-pass) on which some edges carry less than their neighbours and are scaled down: at the optimum they are
+    # OVER-explained (sum of weights > flow), the side of the absolute value that plain under-explained instances never exercise
+    for i in range(14 if tier == "quick" else 160):
+        rng = gen.rng_for("C08dip", seed, i)
+        L = rng.randint(3, 5); nodes = [f"c{j}" for j in range(L + 1)]; edges = list(zip(nodes, nodes[1:]))
+        hi = rng.randint(6, 12); flow = {e: hi for e in edges}
+        dips = rng.sample(edges, rng.randint(1, 2))
+        for e in dips:
+            flow[e] = rng.randint(0, hi - 3)
+        if rng.random() < 0.4:
+            nodes.append("y"); a, b = sorted(rng.sample(range(L + 1), 2)); edges += [(nodes[a], "y"), ("y", nodes[b])]; flow[(nodes[a], "y")] = flow[("y", nodes[b])] = rng.randint(1, 4)
+        wt_ = rng.choice(["int", "float"])
+        base = {"nodes": nodes, "edges": edges, "flow": {e: (float(f) if wt_ == "float" else f) for e, f in flow.items()}, "planted": [], "wt": wt_, "mode": "edge"}
+        cases.append({"cyc": rng.random() < 0.25, "mode": "edge", "wt": wt_, "kdelta": rng.choice([0, 0, 1]), "knone": False, "ignore": [],
+                      "scale": [[gen.jl(e), rng.choice([0.25, 0.5, 0.5, 0.75])] for e in dips], "starts": [], "ends": [], "superset": None, "plr": None, "spec": I.spec_of(base)})
     n = 260 if tier == "quick" else 3000
     for i in range(n):
         rng = gen.rng_for("C08", seed, i)
